@@ -69,7 +69,20 @@ func genWord(t *rapid.T, letters []string, minLen, maxLen int, label string) str
 // out-of-range exponents, bare or trailing dots)
 func genNumber(t *rapid.T, label string) string {
 	i := rapid.IntRange(-30, 130).Draw(t, label)
-	switch rapid.IntRange(0, 6).Draw(t, label+"form") {
+	switch rapid.IntRange(0, 9).Draw(t, label+"form") {
+	case 7: // explicit plus sign
+		if i >= 0 {
+			return "+" + strconv.Itoa(i)
+		}
+		return strconv.Itoa(i)
+	case 8: // no digit before the point
+		f := "." + strconv.Itoa(rapid.IntRange(0, 99).Draw(t, label+"frac"))
+		return []string{"", "-", "+"}[rapid.IntRange(0, 2).Draw(t, label+"sign")] + f
+	case 9: // plus sign with fraction / exponent
+		if i < 0 {
+			i = -i
+		}
+		return "+" + strconv.Itoa(i) + []string{".5", "e1", "E0", "."}[rapid.IntRange(0, 3).Draw(t, label+"tail")]
 	case 0, 1, 2:
 		return strconv.Itoa(i)
 	case 3:
